@@ -1,4 +1,4 @@
-import JadeModel.Proofs.SystemUniqueBDefs
+import JadeModel.Proofs.SystemUniqueDefs
 
 set_option linter.unusedSimpArgs false
 
@@ -7,7 +7,8 @@ namespace Jade.Sys
 set_option maxHeartbeats 32000000 in
 theorem plainB_step_c {s s' : Sys} {op : Op} (hn : NodeInv s) (ha : PlainA s) (hi : PlainB s)
     (h : step s op = some s') (hf : op.risky = false) :
-    (∀ j, HasRow s' j → s'.disk.st j ≠ .ns ∨ holderKnows s' j) := by
+    (∀ q a y, s'.procs q = .sub a y → holds y.pc = true → ∀ j ∈ y.toCancel,
+    ∀ B ∈ s'.batches, j ∉ B.jobs) := by
   obtain ⟨⟨⟨r1, r2, r3, r4, r5⟩, l1, l2, l3, -, -, -, -⟩, n1, -, -, -, -, -, -, -⟩ := hn
   obtain ⟨a1, a2, a3, a4, a5⟩ := ha
   obtain ⟨b1, b2, b3, b4, b5⟩ := hi
